@@ -350,13 +350,18 @@ func c07RenderOp(rules []c07Rule) string {
 	return strings.Join(rs, ";")
 }
 
-func c07ConfigText(nUp int, reqRules []c07Rule, reqFb string, respRules []c07Rule, respFb string) string {
+// urls == nil: upstream k is 'udp://10.0.0.<k+1>:53'.
+func c07ConfigText(nUp int, urls []string, reqRules []c07Rule, reqFb string, respRules []c07Rule, respFb string) string {
 	var sb strings.Builder
 	sb.WriteString("global {}\ndns {\n")
 	if nUp > 0 {
 		sb.WriteString("  upstream {\n")
 		for i := 0; i < nUp; i++ {
-			fmt.Fprintf(&sb, "    u%d: 'udp://10.0.0.%d:53'\n", i, i+1)
+			if urls != nil {
+				fmt.Fprintf(&sb, "    u%d: '%s'\n", i, urls[i])
+			} else {
+				fmt.Fprintf(&sb, "    u%d: 'udp://10.0.0.%d:53'\n", i, i+1)
+			}
 		}
 		sb.WriteString("  }\n")
 	}
